@@ -496,13 +496,19 @@ type runner struct {
 	hung  bool
 }
 
+// sortPN orders query results by (target of the notification, index path).
 func sortPN(out []PNJ) {
-	sort.SliceStable(out, func(i, j int) bool {
-		a, b := strings.Join(out[i].Path, "\x00"), strings.Join(out[j].Path, "\x00")
-		if a != b {
-			return a < b
+	tg := func(i int) string {
+		if out[i].N.Prefix != nil {
+			return out[i].N.Prefix.Target
 		}
-		return out[i].N.Prefix != nil && out[j].N.Prefix != nil && out[i].N.Prefix.Target < out[j].N.Prefix.Target
+		return ""
+	}
+	sort.SliceStable(out, func(i, j int) bool {
+		if tg(i) != tg(j) {
+			return tg(i) < tg(j)
+		}
+		return strings.Join(out[i].Path, "\x00") < strings.Join(out[j].Path, "\x00")
 	})
 }
 
@@ -767,9 +773,9 @@ func (t *termer) val(v *ValJ) string {
 	case "str":
 		return "(Some (TStr " + t.str(v.S) + "))"
 	case "int":
-		return "(Some (TInt " + vh.Z(v.I) + "))"
+		return "(Some (TInt " + zlit(v.I) + "))"
 	case "uint":
-		return "(Some (TUint " + vh.Z(v.I) + "))"
+		return "(Some (TUint " + zlit(v.I) + "))"
 	case "bool":
 		return "(Some (TBool " + vh.Bool(v.B) + "))"
 	case "bytes":
@@ -780,17 +786,35 @@ func (t *termer) val(v *ValJ) string {
 	return "(Some TNone)"
 }
 
+func zlit(v int64) string {
+	if v >= 0 {
+		return fmt.Sprintf("%d", v)
+	}
+	return fmt.Sprintf("(%d)", v)
+}
+
+func (t *termer) tv(v *ValJ) string {
+	s := t.val(v)
+	return s[len("(Some ") : len(s)-1]
+}
+
 func (t *termer) noti(n *NotiJ) string {
+	if !n.Atomic && n.Prefix != nil && len(n.Upd) == 1 && len(n.Del) == 0 && n.Upd[0].Path != nil && n.Upd[0].Val != nil && n.Upd[0].Dup == 0 {
+		return t.intern("n", "notif", fmt.Sprintf("NU %s %s %s %s", zlit(n.TS), t.gpath(n.Prefix), t.gpath(n.Upd[0].Path), t.tv(n.Upd[0].Val)))
+	}
+	if !n.Atomic && n.Prefix != nil && len(n.Upd) == 0 && len(n.Del) == 1 {
+		return t.intern("n", "notif", fmt.Sprintf("ND %s %s %s", zlit(n.TS), t.gpath(n.Prefix), t.gpath(&n.Del[0])))
+	}
 	us := make([]string, len(n.Upd))
 	for i := range n.Upd {
 		u := &n.Upd[i]
-		us[i] = fmt.Sprintf("Upd %s %s %s", t.path(u.Path), t.val(u.Val), vh.Z(int64(u.Dup)))
+		us[i] = fmt.Sprintf("Upd %s %s %s", t.path(u.Path), t.val(u.Val), zlit(int64(u.Dup)))
 	}
 	ds := make([]string, len(n.Del))
 	for i := range n.Del {
 		ds[i] = t.gpath(&n.Del[i])
 	}
-	return t.intern("n", "notif", fmt.Sprintf("Notif %s %s None %s %s %s", vh.Z(n.TS), t.path(n.Prefix), vh.List(us), vh.List(ds), vh.Bool(n.Atomic)))
+	return t.intern("n", "notif", fmt.Sprintf("Notif %s %s None %s %s %s", zlit(n.TS), t.path(n.Prefix), vh.List(us), vh.List(ds), vh.Bool(n.Atomic)))
 }
 
 func (t *termer) res(o *ObsJ) string {
@@ -820,7 +844,7 @@ func (t *termer) res(o *ObsJ) string {
 func (t *termer) op(o *Op, names []string) string {
 	switch o.K {
 	case "upd":
-		return fmt.Sprintf("MUpd %s %s", vh.Z(o.Now), t.noti(o.N))
+		return fmt.Sprintf("MUpd %s %s", zlit(o.Now), t.noti(o.N))
 	case "reset":
 		return fmt.Sprintf("MReset %s %s", vh.Z(o.Now), t.str(o.Tgt))
 	case "remove":
@@ -864,7 +888,7 @@ func optZ(p *int64) string {
 	if p == nil {
 		return "None"
 	}
-	return "(Some " + vh.Z(*p) + ")"
+	return "(Some " + zlit(*p) + ")"
 }
 
 func (t *termer) meta(m *MetaJ) string {
@@ -898,11 +922,19 @@ func (t *termer) tobs(l []TObsJ) string {
 	el := make([]string, len(l))
 	for i := range l {
 		o := &l[i]
-		dump := "None"
-		if o.HasDump {
-			dump = "(Some " + t.pns(o.Dump) + ")"
+		switch {
+		case o.Has && o.HasDump && o.Meta != nil:
+			m := t.meta(o.Meta)
+			el[i] = fmt.Sprintf("TGS %s %s %s", t.str(o.Name), t.pns(o.Dump), m[len("(Some "):len(m)-1])
+		case !o.Has && !o.HasDump && o.Meta == nil:
+			el[i] = "TGN " + t.str(o.Name)
+		default:
+			dump := "None"
+			if o.HasDump {
+				dump = "(Some " + t.pns(o.Dump) + ")"
+			}
+			el[i] = fmt.Sprintf("TG %s (TObs %s %s %s)", t.str(o.Name), vh.Bool(o.Has), dump, t.meta(o.Meta))
 		}
-		el[i] = fmt.Sprintf("TG %s (TObs %s %s %s)", t.str(o.Name), vh.Bool(o.Has), dump, t.meta(o.Meta))
 	}
 	return t.intern("T", "list (string * tobs)", vh.List(el))
 }
